@@ -99,6 +99,16 @@ func (c *Ctx) concatOf(f *FA, v ssa.Value, use ssa.Instruction, depth int) ([]cp
 	case *ssa.MakeSlice:
 		return c.presizedParts(f, x, use)
 	case *ssa.Slice:
+		// x[:0]: the empty prefix of a scratch buffer that is refilled (append(buf[:0], ...)); as a value it is
+		// the empty string whatever the buffer held (that the storage is reused is an aliasing matter, decided
+		// by the alias rules)
+		if x.High != nil && x.Max == nil {
+			if hk, ok := x.High.(*ssa.Const); ok && hk.Value != nil {
+				if hv, ok := constInt64(hk.Value); ok && hv == 0 {
+					return nil, true
+				}
+			}
+		}
 		// a slice literal of explicit octets: []byte{a, b}
 		if al, ok := x.X.(*ssa.Alloc); ok && isByteArrayPtr(al.Type()) && x.Low == nil && x.High == nil {
 			n, _ := arrayLen(al.Type())
